@@ -148,7 +148,7 @@ def random_recipe(rng, n, max_ops):
 
 
 def random_config(rng):
-    return {'placement': rng.choice(['greedy', 'greedy', 'trivial', 'static']),
+    return {'gate_count_weight': rng.choice([0.1, 0.1, 0.3, 0.0]), 'placement': rng.choice(['greedy', 'greedy', 'trivial', 'static']),
             'layout_passes': rng.choice([0, 1, 1, 2, 3]),
             'decay_delta': rng.choice([0.0, 0.001, 0.001, 0.1]),
             'decay_reset_interval': rng.choice([1, 5, 5]),
@@ -257,6 +257,77 @@ def _needconn(o):
 
 
 _SWAP_MSG = re.compile(r'applying swap \((\d+), (\d+)\)')
+_PERM_MSG = re.compile(r'applying permutation \(([\d, ]+)\)')
+
+
+def _as_blocks(circ, data):
+    """What a partitioner hands to the PAM passes, in its simplest form: every operation becomes a block of its own (a CircuitGate
+    on the SORTED location, the operation inside on the accordingly permuted wires); barriers stay bare."""
+    from bqskit.ir.circuit import Circuit
+    from bqskit.ir.gates import BarrierPlaceholder, CircuitGate
+    new = Circuit(circ.num_qudits, circ.radixes)
+    for op in circ:
+        if isinstance(op.gate, BarrierPlaceholder):
+            new.append_gate(op.gate, op.location)
+            continue
+        loc = sorted(int(q) for q in op.location)
+        inner = Circuit(len(loc))
+        inner.append_gate(op.gate, [loc.index(int(q)) for q in op.location], op.params)
+        new.append_gate(CircuitGate(inner), loc, list(inner.params))
+    circ.become(new)
+
+
+def _connected_graphs(k):
+    from bqskit.qis.graph import CouplingGraph
+    if k == 1:
+        return [CouplingGraph([], 1)]
+    pairs = list(itertools.combinations(range(k), 2))
+    out = []
+    for m in range(1, 2 ** len(pairs)):
+        es = [pr for i, pr in enumerate(pairs) if m >> i & 1]
+        if connected(k, es):
+            out.append(CouplingGraph(es, k))
+    return out
+
+
+def _embed_permutations(circ, data):
+    """What [ForEachBlockPass(EmbedAllPermutationsPass)] leaves in the PassData, without synthesis: for every block the circuits
+    that implement Po^T . U . Pi, keyed by local coupling graph and (input permutation, output permutation).  A block on one or
+    three qudits is offered as it is (identity permutations) on every connected graph; a block on two qudits also with a
+    SwapGate before it (input permutation (1, 0)) and / or after it (output permutation (1, 0)) -- on two qudits a permutation
+    is its own inverse, so no convention is involved."""
+    from bqskit.ir.circuit import Circuit
+    from bqskit.ir.gates import BarrierPlaceholder, SwapGate
+    from bqskit.ir.point import CircuitPoint
+    from bqskit.passes.control.foreach import ForEachBlockPass
+    from bqskit.qis.graph import CouplingGraph
+    graphs = {k: _connected_graphs(k) for k in (1, 2, 3)}
+    block_datas = []
+    for cyc, op in circ.operations_with_cycles():
+        if isinstance(op.gate, BarrierPlaceholder):
+            continue
+        k = op.num_qudits
+        if k > 3:
+            raise MachineryError('block on %d qudits in a PAM workflow' % k)
+        ident = tuple(range(k))
+        plain = Circuit(k)
+        plain.append_gate(op.gate, list(range(k)), op.params)
+        pd = {g: {(ident, ident): plain} for g in graphs[k]}
+        if k == 2:
+            for pin in ((0, 1), (1, 0)):
+                for pout in ((0, 1), (1, 0)):
+                    if pin == ident and pout == ident:
+                        continue
+                    c = Circuit(2)
+                    if pin != ident:
+                        c.append_gate(SwapGate(), [0, 1])
+                    c.append_gate(op.gate, [0, 1], op.params)
+                    if pout != ident:
+                        c.append_gate(SwapGate(), [0, 1])
+                    pd[CouplingGraph([(0, 1)], 2)][(pin, pout)] = c
+        for q in op.location:
+            block_datas.append({'point': CircuitPoint(cyc, int(q)), 'permutation_data': pd})
+    data[ForEachBlockPass.key] = [block_datas]
 
 
 def _observe_circuit(circ, meta):
@@ -317,7 +388,13 @@ def observe(job):
             elif _Listen.now == 'route':
                 m = _SWAP_MSG.match(msg)
                 if m:
-                    _Listen.swaps.append([int(m.group(1)), int(m.group(2))])
+                    _Listen.swaps.append([0, int(m.group(1)), int(m.group(2))])
+                    return
+                m = _PERM_MSG.match(msg)
+                if m:
+                    perm = [int(x) for x in m.group(1).replace(' ', '').split(',') if x]
+                    if perm != sorted(perm):          # the identity changes nothing
+                        _Listen.swaps.append([1, perm[1], perm[0]] if len(perm) == 2 else [2, 0, 0])
     _Listen.n = 0
     _Listen.routing = 0
     _Listen.swaps = []
@@ -339,17 +416,23 @@ def observe(job):
         logging.disable(old_disable)
 
     def make(st):
+        """The passes of one step.  A PAM step is [blocks, permutation data, the PAM pass, UnfoldPass]: the first two stand for
+        the partitioner and the permutation-aware synthesis of the blocks (see _as_blocks, _embed_permutations)."""
         k, fl = st['kind'], st.get('flavour', '')
         if k == 'setmodel':
-            return P.SetModelPass(MachineModel(st['n'], CouplingGraph([tuple(e) for e in st['edges']], st['n'])))
+            return [P.SetModelPass(MachineModel(st['n'], CouplingGraph([tuple(e) for e in st['edges']], st['n'])))]
         if k == 'place':
-            return {'greedy': P.GreedyPlacementPass, 'trivial': P.TrivialPlacementPass, 'static': P.StaticPlacementPass}[fl]()
+            return [{'greedy': P.GreedyPlacementPass, 'trivial': P.TrivialPlacementPass, 'static': P.StaticPlacementPass}[fl]()]
         if k == 'layout' and fl == 'sabre':
-            return P.GeneralizedSabreLayoutPass(max(1, cfg['layout_passes']), *sab)
+            return [P.GeneralizedSabreLayoutPass(max(1, cfg['layout_passes']), *sab)]
         if k == 'route' and fl == 'sabre':
-            return P.GeneralizedSabreRoutingPass(*sab)
+            return [P.GeneralizedSabreRoutingPass(*sab)]
+        if k == 'layout' and fl == 'pam':
+            return [_as_blocks, _embed_permutations, P.PAMLayoutPass(max(1, cfg['layout_passes']), cfg.get('gate_count_weight', 0.1), *sab), P.UnfoldPass()]
+        if k == 'route' and fl == 'pam':
+            return [_as_blocks, _embed_permutations, P.PAMRoutingPass(cfg.get('gate_count_weight', 0.1), *sab), P.UnfoldPass()]
         if k == 'apply':
-            return P.ApplyPlacement()
+            return [P.ApplyPlacement()]
         raise MachineryError('no pass for step %r' % (st,))
 
     snaps, points = [], {}
@@ -368,9 +451,12 @@ def observe(job):
             moved = [int(x) for x in data.initial_mapping] != [int(x) for x in data.final_mapping]
         _Listen.now = kind
         try:
-            p = make(st)
             with _c08._Limit(RUN_TIME_LIMIT):
-                _run(p, circ, data)
+                for p in make(st):
+                    if callable(p) and not hasattr(p, 'run'):
+                        p(circ, data)
+                    else:
+                        _run(p, circ, data)
         except MachineryError:
             restore()
             raise
@@ -451,7 +537,7 @@ def run_algebra(ctx, stats):
         with open(cfg, 'w') as f:
             f.write('SPECIFICATION Spec\nCONSTANTS\n  NL = %d\n  Sizes = %s\n  GraphMode = "%s"\n  MaxSwaps = %d\n  MaxSteps = 1000000\n'
                     'VIEW NoSteps\nINVARIANTS %s\nCHECK_DEADLOCK FALSE\n' % (nl, _sizes(sizes), gm, ms, ALG_INVARIANTS))
-        r = common.tlc(ALG, cfg, coverage=True, scratch=ctx.scratch, timeout=3000)
+        r = common.tlc(ALG, cfg, coverage=True, scratch=ctx.scratch, timeout=3000, workers=8)
         if not r.ok:
             raise MachineryError('MappingAlgebra.tla (%d logical, machines of %s): %s' % (nl, sizes, r.error or r.out[-1500:]))
         c = _coverage(r.out)
@@ -483,7 +569,7 @@ def generate_workflows(ctx, stats):
         cfg = os.path.join(ctx.scratch, 'MappingGen_%d.cfg' % nl)
         with open(cfg, 'w') as f:
             f.write('SPECIFICATION GSpec\nCONSTANTS\n  NL = %d\n  Sizes = %s\n  GraphMode = "%s"\n  MaxSwaps = 2\n  MaxSteps = %d\n  MinLen = %d\n'
-                    '  GenFlavours = {"sabre"}\nINVARIANTS %s\nCHECK_DEADLOCK FALSE\n' % (nl, _sizes(sizes), 'all', hi, lo, ALG_INVARIANTS))
+                    '  GenFlavours = {"sabre"}\nCHECK_DEADLOCK FALSE\n' % (nl, _sizes(sizes), 'mixed', hi, lo))
         r = common.tlc(GEN, cfg, simulate='num=%d' % num, depth=40 * hi, seed=ctx.seed * 7919 + nl, workers=1, scratch=ctx.scratch, timeout=1500)
         if not r.ok:
             raise MachineryError('MappingGen.tla (%d logical): %s' % (nl, r.error or r.out[-1500:]))
@@ -521,7 +607,7 @@ def enumerate_circuits(ctx, stats):
         cfg = os.path.join(ctx.scratch, 'CircuitEnum_%d.cfg' % nq)
         with open(cfg, 'w') as f:
             f.write('SPECIFICATION Spec\nCONSTANTS\n  NQ = %d\n  MaxOps = %d\n  GateArities = {1, 2, 3}\n  Barriers = TRUE\nCHECK_DEADLOCK FALSE\n' % (nq, maxops))
-        r = common.tlc(ENUM, cfg, scratch=ctx.scratch, timeout=1200)
+        r = common.tlc(ENUM, cfg, scratch=ctx.scratch, timeout=1200, workers=4)
         if not r.ok:
             raise MachineryError('CircuitEnum.tla failed: %s' % (r.error or r.out[-800:]))
         stats['states'] += r.distinct
@@ -555,9 +641,19 @@ def run(ctx: Ctx) -> Outcome:
         jobs = [as_job(ctx.replay['replay']['job'])]
         srcs = ['replay']
     else:
-        run_algebra(ctx, stats)
-        enum = enumerate_circuits(ctx, stats)
-        wfs = generate_workflows(ctx, stats)
+        # three independent groups of TLC runs (exhaustive L2, circuit enumeration, workflow generation) side by side
+        from concurrent.futures import ThreadPoolExecutor
+        parts = [{'states': 0, 'transitions': 0} for _ in range(3)]
+        with ThreadPoolExecutor(3) as ex:
+            fa = ex.submit(run_algebra, ctx, parts[0])
+            fe = ex.submit(enumerate_circuits, ctx, parts[1])
+            fg = ex.submit(generate_workflows, ctx, parts[2])
+            fa.result()
+            enum = fe.result()
+            wfs = fg.result()
+        for part in parts:
+            for k, v in part.items():
+                stats[k] = stats.get(k, 0) + v if k in ('states', 'transitions') else v
         multi = {w: [r for r in rs if len({tuple(sorted(o['loc'])) for o in r['ops'] if len(o['loc']) > 1 and o['k'] == 'g'}) >= (2 if w > 2 else 1)]
                  for w, rs in enum.items()}
         jobs, srcs = [], []
